@@ -16,6 +16,19 @@ def export_locales(_req=None):
         spec = info.get("locale_specific", {})
         for loc in language_locale_dict.get(lang, []):
             ent["locales"][loc] = spec.get(loc, {}).get("date_order", ent["date_order"])
+        # regional overlays: which locales add words of their own, and whether one of those words is listed in the
+        # base language under ANOTHER key (fr-MA 'mar' = March, fr 'mar' = Tuesday)
+        base_forms = {}
+        for k, v in info.items():
+            if isinstance(v, list):
+                for w in v:
+                    if isinstance(w, str):
+                        base_forms.setdefault(w.lower(), set()).add(k)
+        ent["overlays"] = {}
+        for loc, ov in spec.items():
+            words = [(k, w) for k, v in ov.items() if isinstance(v, list) for w in v if isinstance(w, str)]
+            if words:
+                ent["overlays"][loc] = {"collides": any(base_forms.get(w.lower(), {k}) - {k} for k, w in words), "n": len(words)}
         out["langs"][lang] = ent
     return out
 
